@@ -207,9 +207,13 @@ def BEnv.get? (b : BEnv) (x : String) (i : Nat) : Option Nat :=
 def BEnv.set (b : BEnv) (x : String) (i : Nat) (v : Nat) : BEnv :=
   ((x, i), v) :: b.filter (fun p => !(p.1 == (x, i)))
 
+/-- the all-ones number with as many bits as `m`: every `a ≤ m` satisfies `a ≤ ones m`, and so do
+    `a ||| b`, `a ^^^ b` for `a, b ≤ m` -/
+def ones (m : Nat) : Nat := 2 ^ (Nat.log2 m + 1) - 1
+
 /-- an upper bound for the IDEAL value of `e` given bounds on the cells, or `none` if some node might
     wrap at its width, or the expression is outside the supported straight-line fragment
-    (array indices must be literals) -/
+    (array indices must be literals, shift amounts must be literals, no `-`, `~`, unary `-`, `?:`) -/
 def boundE (b : BEnv) : Expr → Option Nat
   | .lit n => some n
   | .var x => b.get? x 0
@@ -222,8 +226,8 @@ def boundE (b : BEnv) : Expr → Option Nat
       | .add => if bx + by_ < 2 ^ w then some (bx + by_) else none
       | .mul => if bx * by_ < 2 ^ w then some (bx * by_) else none
       | .and => some (min bx by_)
-      | .or => none
-      | .xor => none
+      | .or => some (ones (max bx by_))
+      | .xor => some (ones (max bx by_))
       | .shr => match y with
           | .lit k => some (bx / 2 ^ k)
           | _ => none
@@ -239,7 +243,7 @@ def boundE (b : BEnv) : Expr → Option Nat
   | .lnot e => (boundE b e).map (fun _ => 1)
   | .cond _ _ _ => none
 
-/-- straight-line statements only (`assign` to scalars, `store` at literal indices) -/
+/-- straight-line statements only (`assign` to scalars, `store` at literal indices, a final `ret`) -/
 def checkL (b : BEnv) : List Stmt → Option BEnv
   | [] => some b
   | .assign x e :: rest =>
@@ -249,6 +253,10 @@ def checkL (b : BEnv) : List Stmt → Option BEnv
   | .store a (.lit i) e :: rest =>
     match boundE b e with
     | some v => checkL (b.set a i v) rest
+    | none => none
+  | .ret e :: _ =>
+    match boundE b e with
+    | some _ => some b
     | none => none
   | _ => none
 
@@ -268,23 +276,56 @@ def Lab.join : Lab → Lab → Lab
   | .pub, .pub => .pub
   | _, _ => .sec
 
-/-- labels of scalars and of whole arrays (an array is one security class) -/
-abbrev LEnv := List (String × Lab)
+/-- what a label is attached to: the scalar `x` (memory cell `(x, 0)`) or the whole array `a`
+    (all cells `(a, i)`; an array is one security class).  The two kinds are separate name spaces, so
+    the analysis stays sound even if a name is used both ways (`sc x` and `arr x` share the cell `(x, 0)`;
+    the rules for `assign` and `store` account for that). -/
+inductive Cell where
+  | sc (x : String)
+  | arr (a : String)
+deriving DecidableEq, Repr, Inhabited
 
-def LEnv.get (g : LEnv) (x : String) : Lab :=
-  match g.find? (fun p => p.1 == x) with
+abbrev LEnv := List (Cell × Lab)
+
+def LEnv.get (g : LEnv) (c : Cell) : Lab :=
+  match g.find? (fun p => p.1 == c) with
   | some p => p.2
   | none => .sec        -- unknown names are secret
 
-def LEnv.set (g : LEnv) (x : String) (l : Lab) : LEnv := (x, l) :: g.filter (fun p => !(p.1 == x))
+def LEnv.set (g : LEnv) (c : Cell) (l : Lab) : LEnv := (c, l) :: g.filter (fun p => !(p.1 == c))
+
+/-- weak update: afterwards `c` has the label `(g.get c).join l` -/
+def LEnv.weak (g : LEnv) (c : Cell) (l : Lab) : LEnv :=
+  match l, g.get c with
+  | .sec, .pub => g.set c .sec
+  | _, _ => g
+
+/-- pointwise join: `(joinEnv g1 g2).get c = (g1.get c).join (g2.get c)` for every `c`
+    (a name missing from `g1` is secret in `g1`, hence in the join) -/
+def joinEnv (g1 g2 : LEnv) : LEnv :=
+  g1.map (fun p => (p.1, p.2.join (g2.get p.1)))
+
+/-- every name is at most as secret in `a` as in `b`: whatever is public in `b` is public in `a` -/
+def subsumes (a b : LEnv) : Bool :=
+  b.all (fun p => b.get p.1 == .sec || a.get p.1 == .pub)
+
+/-- search for a loop invariant: starting from `gi`, repeat `gi := gi ⊔ f gi` (at most `fuel` rounds)
+    until `f gi` subsumes `gi`, where `f` labels the loop body.  The result `gi'` satisfies
+    `f gi' = some g'` with `subsumes g' gi'`, and is at least as secret as `gi` everywhere. -/
+def loopInv (f : LEnv → Option LEnv) : Nat → LEnv → Option LEnv
+  | 0, _ => none
+  | fuel + 1, gi =>
+    match f gi with
+    | some g' => if subsumes g' gi then some gi else loopInv f fuel (joinEnv gi g')
+    | none => none
 
 /-- label of an expression, or `none` if evaluating it leaks a secret (secret index, secret `?:`) -/
 def labE (g : LEnv) : Expr → Option Lab
   | .lit _ => some .pub
-  | .var x => some (g.get x)
+  | .var x => some (g.get (.sc x))
   | .idx a i =>
     match labE g i with
-    | some .pub => some (g.get a)
+    | some .pub => some (g.get (.arr a))
     | _ => none
   | .bin _ _ a b =>
     match labE g a, labE g b with
@@ -300,32 +341,29 @@ def labE (g : LEnv) : Expr → Option Lab
     | _, _, _ => none
 
 mutual
-/-- flow-sensitive labelling; fails on a secret branch condition, secret index or secret return in a
-    branch-dependent position.  Assignments under a public branch join with the old label. -/
+/-- flow-sensitive labelling; fails on a secret branch condition, a secret index, or a `ret`/condition
+    whose evaluation leaks.  After a public branch the labels of both arms are joined.
+    * `assign x e` is a strong update of the scalar `x` (and a weak update of the array of the same name,
+      which shares cell `(x, 0)`); `store a i e` is a weak update of the array `a` (and of the scalar `a`).
+    * `loop x n body`: the result is a labelling `gi`, at least as secret as `g`, such that the body maps
+      `gi[x := pub]` to something that subsumes `gi` (a loop invariant, found by `loopInv`).  The
+      counter keeps its label from before the loop in the result (the loop may run zero times).
+    * `declassify x` makes `x` public; the soundness theorem is for programs with `noDeclassify`. -/
 def checkS (g : LEnv) : Stmt → Option LEnv
-  | .assign x e => (labE g e).map (fun l => g.set x l)
+  | .assign x e => (labE g e).map (fun l => (g.set (.sc x) l).weak (.arr x) l)
   | .store a i e =>
     match labE g i, labE g e with
-    | some .pub, some l => some (g.set a ((g.get a).join l))
+    | some .pub, some l => some ((g.weak (.arr a) l).weak (.sc a) l)
     | _, _ => none
   | .ite c t e =>
     match labE g c with
     | some .pub =>
       match checkL g t, checkL g e with
-      | some g1, some g2 => some (joinEnv g g1 g2)
+      | some g1, some g2 => some (joinEnv g1 g2)
       | _, _ => none
     | _ => none
-  | .loop x _ body =>
-    -- the counter is public; the body must be checkable at a fixed point reached in at most 2 rounds
-    let g0 := g.set x .pub
-    match checkL g0 body with
-    | some g1 =>
-      let g1' := joinEnv g0 g0 g1
-      match checkL (g1'.set x .pub) body with
-      | some g2 => if subsumes (joinEnv g1' g1' g2) g1' then some g1' else none
-      | none => none
-    | none => none
-  | .declassify x => some (g.set x .pub)
+  | .loop x _ body => loopInv (fun gi => checkL (gi.set (.sc x) .pub) body) (g.length + 1) g
+  | .declassify x => some (g.set (.sc x) .pub)
   | .ret e => (labE g e).map (fun _ => g)
 
 def checkL (g : LEnv) : List Stmt → Option LEnv
@@ -334,20 +372,27 @@ def checkL (g : LEnv) : List Stmt → Option LEnv
     match checkS g s with
     | some g' => checkL g' rest
     | none => none
-
-/-- pointwise join of the labels of all names mentioned anywhere -/
-def joinEnv (g g1 g2 : LEnv) : LEnv :=
-  let names := (g.map (·.1) ++ g1.map (·.1) ++ g2.map (·.1)).eraseDups
-  names.map (fun x => (x, (g1.get x).join (g2.get x)))
-
-/-- every name is at most as secret in `a` as in `b` -/
-def subsumes (a b : LEnv) : Bool :=
-  (a.map (·.1) ++ b.map (·.1)).all (fun x => a.get x == .pub || b.get x == .sec)
 end
 
-/-- two memories agree on everything labelled public -/
+mutual
+/-- the statement contains no `declassify` -/
+def noDeclassifyS : Stmt → Bool
+  | .ite _ t e => noDeclassify t && noDeclassify e
+  | .loop _ _ body => noDeclassify body
+  | .declassify _ => false
+  | _ => true
+
+/-- the program contains no `declassify` -/
+def noDeclassify : List Stmt → Bool
+  | [] => true
+  | s :: rest => noDeclassifyS s && noDeclassify rest
+end
+
+/-- two memories agree on everything labelled public: on cell `(x, 0)` for a public scalar `x`, on all
+    cells `(a, i)` for a public array `a` -/
 def LowEq (g : LEnv) (e1 e2 : Env) : Prop :=
-  ∀ x i, g.get x = .pub → e1.get x i = e2.get x i
+  (∀ x, g.get (.sc x) = .pub → e1.get x 0 = e2.get x 0) ∧
+  (∀ a i, g.get (.arr a) = .pub → e1.get a i = e2.get a i)
 
 end Taint
 
